@@ -91,6 +91,7 @@ class Run:
         self.frags = {}             # id -> list of Edit (every fragment ever seen)
         self.checked = {}           # id -> (number of edits the oracle has checked, accumulated O)
         self.verified_files = set() # names whose contents were read back and recomputed
+        self.last_verified = 0      # number of the last fragment the real verifier has processed
         self.cur_id = 1
         self.files = {}             # name -> entries (every file ever seen)
         self.tree = []              # names
@@ -373,6 +374,41 @@ class Run:
         self.mem = False
         self.stats["flush"] += 1
 
+    def ingest(self, ents):
+        """LsmTree::ingest of an external sst with the given entries (sorted by key, newest first)"""
+        if self.dead:
+            return
+        ents = sorted(ents, key=kr_key)
+        # an external sst brings (key, timestamp) pairs of its own: ingesting a pair the tree still
+        # holds would put one entry into two files (the merge then fails with sort-order: the
+        # precondition of C01's OIngest, not a matter of the books): such an ingest is not made
+        held = set((e[0], e[1]) for n in self.tree for e in self.files.get(n, []))
+        if any((e[0], e[1]) in held for e in ents):
+            self.stats["ingest_skipped_pairs_present"] = self.stats.get("ingest_skipped_pairs_present", 0) + 1
+            return
+        out = self.sess.cmd("ingest " + " ".join(L.ent_tok(e) for e in ents))[0]
+        self.events.append(("ingest", out))
+        if out != "INGEST ok":
+            if "duplicate-sst" in out:
+                self.stats["ingest_duplicate"] = self.stats.get("ingest_duplicate", 0) + 1
+                return      # the store refuses a name that is in sst/: nothing happened
+            self.problem("error", what="ingest returned an error or panicked", out=out)
+            self.dead = True
+            return
+        tree = self.dump_tree()
+        new = [n for n in tree if n not in self.tree]
+        if len(new) != 1 or [n for n in self.tree if n not in tree]:
+            self.problem("corr", what="ingest: expected exactly one new file", new=new)
+            self.dead = True
+            return
+        self.tree = tree
+        ins, rolled = self.sync("ingest")
+        self.stats["rollover"] += rolled
+        self.send_hashes(ents)
+        if self.model_step("ingest %d %s" % (1 if rolled else 0, self.ents_str(ents)), "ingest"):
+            self.compare_model(ins, "ingest")
+        self.stats["ingest"] = self.stats.get("ingest", 0) + 1
+
     def compact(self):
         """one compaction step of the real selector; False when it found nothing"""
         if self.dead:
@@ -446,6 +482,21 @@ class Run:
         """the real LsmVerifier on the live directory; the model verifies the same fragments from zero"""
         if self.dead:
             return
+        # how often a pass meets the situation that only the LIVE manifest explains: a name removed by a
+        # fragment about to be judged, added again and removed again by edits still in the live manifest
+        live = self.frags.get(self.cur_id, [])
+        readded, again = set(), set()
+        for e in live[1:]:
+            again |= readded & set(e.rms) - set(e.adds)
+            readded |= set(e.adds)
+        if again:
+            old_rm = set()
+            for fid, edits in self.frags.items():
+                if self.last_verified < fid < self.cur_id - 1:
+                    for e in edits[1:]:
+                        old_rm |= set(e.rms) - set(e.adds)
+            if old_rm & again:
+                self.stats["verify_with_live_recreation"] = self.stats.get("verify_with_live_recreation", 0) + 1
         out = self.tool.cmd("verify %s %d %s" % (self.root, passes, " ".join(self.opts)), multi=True)
         self.events.append(("verify", " ".join(out)))
         self.stats["verify"] += 1
@@ -454,6 +505,7 @@ class Run:
         m = vs.get("M", "-")
         k = int(m.split(".")[1]) if m.startswith("MANIFEST.") else 0
         self.stats["verify_frags"] = max(self.stats["verify_frags"], k)
+        self.last_verified = k
         mv = self.model.cmd("verify %d" % k).split(" ")
         bad = [o for o in out if o != "PASS ok"]
         if bad:
